@@ -1,6 +1,7 @@
 package checks
 
 import (
+	"fmt"
 	"sort"
 	"strings"
 
@@ -63,6 +64,12 @@ func init() {
 		RunOps(c, OpFilter{Methods: append(append([]string{}, differentiableOps...), "Concat"), Keep: func(rule, construct string) bool {
 			return isGradRule(rule) && !isBroadcastConstruct(construct)
 		}})
+		c.R.Rule("S10.tolerance: the absolute equality tolerance extracted from the interpreted Eq kernel (which the selection rules of ElMax/ElMin/MaxAlong/MinAlong use to find the selected element) is below 2^-52, so distinct operands of ordinary magnitude are never a tie")
+		{
+			e := engine.NewOpEngine(c.P, c.A)
+			e.RunUnitToleranceCheck("cputensor.(*CPUTensor).Eq/tolerance")
+			fileOps(c, e, OpFilter{Keep: func(rule, construct string) bool { return rule == "S10.tolerance" }})
+		}
 		c.R.Rule("tracked subsets: for multi-operand operations every subset of tracked operands is instantiated; an untracked operand may have no back edge, a tracked one exactly one")
 		c.R.Min("op.closure_evaluations", 300)
 		c.R.Min("op.vjp_comparisons", 300)
@@ -87,6 +94,18 @@ func init() {
 		}})
 		c.R.Min("op.closure_evaluations", 200)
 		statelessPremise(c, false)
+		c.R.Rule("premise (delivery): the summed gradient only reaches the operand if the walk delivers it: the C01 walk obligations on the DAG templates are re-run (a walk that prunes, skips or fails leaves the operand without its sum)")
+		{
+			e := engine.NewOpEngine(c.P, c.A)
+			st := &engine.WalkStats{}
+			for _, pr := range engine.TemplatePrograms() {
+				e.RunProgram(pr, st)
+			}
+			fileOps(c, e, OpFilter{Keep: func(rule, construct string) bool {
+				return strings.HasPrefix(rule, "C01.") || rule == "interp"
+			}})
+			c.R.Count("walk.programs", st.Programs)
+		}
 		addOpsAssumptions(c)
 	})
 }
@@ -120,7 +139,7 @@ func init() {
 		}
 		fileOps(c, e, OpFilter{Keep: func(rule, construct string) bool {
 			return strings.HasPrefix(rule, "C01.") || rule == "interp" || rule == "S6.panic"
-		}})
+		}, KeepF: untrackedUntouched})
 		c.R.Rule("local rules (premise of the total derivative): the C02 obligations A1/A2/A3/S1c for every differentiable operation are re-run here — a correct walk over wrong local rules is not the total derivative")
 		RunOps(c, OpFilter{Methods: append(append([]string{}, differentiableOps...), "Concat"), Keep: func(rule, construct string) bool {
 			return isGradRule(rule) && !isBroadcastConstruct(construct)
@@ -167,6 +186,14 @@ func init() {
 		}
 		fileOps(c, e, OpFilter{Keep: func(rule, construct string) bool {
 			return strings.HasPrefix(rule, "C08.") || rule == "S1a.gctx" || rule == "S1c.edges" || rule == "interp" || rule == "S6.panic"
+		}, KeepF: func(f engine.Finding) bool {
+			// a back-propagation that fails, panics or leaves a tracked tensor of the graph without a gradient has
+			// not "retired" the graph as specified
+			return f.Rule == "C01.total" && (f.What == "error" || strings.HasPrefix(f.What, "panic:") || strings.HasPrefix(f.What, "missing-gradient"))
+		}})
+		c.R.Rule("S1c/S1a/C08.state over the symbolic-argument instances of every operation (all shapes, exponents, dims, indexes of the shape engine): a tracked result has exactly one back edge per tracked operand whatever the argument values (e.g. Pow with exponent 0)")
+		RunOps(c, OpFilter{Keep: func(rule, construct string) bool {
+			return rule == "S1c.edges" || rule == "S1a.gctx" || rule == "C08.state" || rule == "S1b.operands"
 		}})
 		rules.S3Ownership(c.P, c.A, c.R)
 		c.R.Count("flags.instances", len(calls))
@@ -207,17 +234,40 @@ func init() {
 	})
 }
 
+// untrackedUntouched keeps the template findings that say an untracked / unrelated tensor was written by the walk
+// (received a gradient, was marked spent) or that a gradient tensor is itself tracked.
+func untrackedUntouched(f engine.Finding) bool {
+	if f.Rule != "C08.bp" {
+		return false
+	}
+	switch f.What {
+	case "gradient-on-untracked-or-unrelated", "spent-outside-graph", "gradient-outside-graph", "tracked-gradient":
+		return true
+	}
+	return false
+}
+
 // statelessPremise: the instance-based engines interpret one public call (or one short program) at a time;
 // their verdicts extend to arbitrary call sequences only if operations keep no state between calls.  S3 (no
 // function writes a field of a tensor / gradient context it did not allocate, outside the walk and
 // ResetGradContext) and S8 (no mutable package state) establish that; S13 does the same for components.
 func statelessPremise(c *Ctx, components bool) {
-	c.R.Rule("premise (statelessness): S3 field-write ownership + S8 no mutable package state" + map[bool]string{true: " + S13 no tensor parked in component state", false: ""}[components] + ": per-call verdicts extend to call sequences (repeated use of an operand, use after ResetGradContext, a second training step)")
+	c.R.Rule("premise (statelessness): S3 field-write ownership + S4 write provenance (no write to memory the call did not allocate) + S5 no caller slice retained + S8 no mutable package state" + map[bool]string{true: " + S13 no tensor parked in component state", false: ""}[components] + ": per-call verdicts extend to call sequences (repeated use of an operand, use after ResetGradContext, a second training step)")
 	rules.S3Ownership(c.P, c.A, c.R)
 	rules.S8SharedState(c.P, c.A, c.R)
+	rules.S4Provenance(c.P, c.A, c.R)
+	rules.S5Retention(c.P, c.A, c.R)
 	if components {
 		rules.S13TensorRetention(c.P, c.A, c.R)
 	}
+}
+
+// unitTolerance adds the S10.tolerance rule (absolute equality tolerance below 2^-52) to a property.
+func unitTolerance(c *Ctx) {
+	c.R.Rule("S10.tolerance: the absolute equality tolerance extracted from the interpreted Eq kernel is below 2^-52 (the spacing of float64 at 1): distinct operands of ordinary magnitude never compare equal")
+	e := engine.NewOpEngine(c.P, c.A)
+	e.RunUnitToleranceCheck("cputensor.(*CPUTensor).Eq/tolerance")
+	fileOps(c, e, OpFilter{Keep: func(rule, construct string) bool { return rule == "S10.tolerance" }})
 }
 
 // premiseOps runs the labelled-element comparison for every Tensor method a component package invokes
@@ -237,6 +287,10 @@ func componentCheck(run func(e *engine.OpEngine, c *Ctx), minPaths int, premiseP
 		e := engine.NewOpEngine(c.P, c.A)
 		run(e, c)
 		fileOps(c, e, OpFilter{Keep: componentKeep})
+		if e.LoopCuts > 0 {
+			c.R.Count("component.paths_cut_by_loop_bound", e.LoopCuts)
+			c.R.NotDecide(fmt.Sprintf("%d abstract paths that iterate a loop over a symbolic bound more than 3 times were not explored (bounded unrolling)", e.LoopCuts))
+		}
 		for _, pk := range premisePkgs {
 			premiseOps(c, pk)
 		}
@@ -275,6 +329,7 @@ func init() {
 		c.R.Rule("A2.formula: after any sequence of accepted batches (symbolic sizes) total = Σ sizes, correct = Σ_batches Σ_i [|p_i - t_i| <= τ], Result = correct/total and 0 before any batch: additive updates make the value independent of the partition")
 		c.R.Rule("S7: rejected calls (nil, wrong rank, mismatched lengths), also interleaved between accepted ones, leave both counters unchanged")
 		e.RunAccuracyChecks()
+		unitTolerance(c)
 		c.R.NotDecide("0 <= correct <= total relies on the Eq mask being 0/1 (C03)")
 	}, 10, core.PkgMetrics))
 	register("C16", "FC layer is an affine map with live parameters (forward, pointers, validation)", componentCheck(func(e *engine.OpEngine, c *Ctx) {
@@ -339,6 +394,7 @@ func valueOps(c *Ctx, id string, methods []string, extra func(c *Ctx)) {
 	if extra != nil {
 		extra(c)
 	}
+	statelessPremise(c, false)
 	c.R.Min("data.element_comparisons", 200)
 	c.R.NotDecide("shapes beyond the enumerated bound (the odometer/carry logic is exercised on every enumerated shape, not proven for all sizes); floating-point rounding")
 	addOpsAssumptions(c)
@@ -349,6 +405,7 @@ func init() {
 		c.R.Rule("comparison kernels are evaluated under the five order classes of a-b (far above, within tolerance above, tie, within tolerance below, far below; Eq/Ne/Equals only far/tie as the property states): results must be exactly the defined 0/1")
 		c.R.Rule("S1e: implicit expansion goes through the public Broadcast on both operands before the kernel runs (edge-routing rule of the operation engine), so the outcome equals broadcasting explicitly first")
 		valueOps(c, "C03", []string{"Scale", "Pow", "Exp", "Log", "Sin", "Cos", "Tan", "Sinh", "Cosh", "Tanh", "Add", "Sub", "Mul", "Div", "ElMax", "ElMin", "Eq", "Ne", "Gt", "Ge", "Lt", "Le", "Equals", "Broadcast"}, nil)
+		unitTolerance(c)
 	})
 	register("C04", "MatMul, Dot, Transpose", func(c *Ctx) {
 		valueOps(c, "C04", []string{"MatMul", "Dot", "Transpose"}, nil)
@@ -407,6 +464,18 @@ func init() {
 		rules.S3Ownership(c.P, c.A, c.R)
 		rules.S13TensorRetention(c.P, c.A, c.R)
 		rules.S2Walk(c.P, c.A, c.R)
+		c.R.Rule("C08.bp on the DAG templates (incl. untracked operands, dead branches, untracked roots): the interpreted walk writes nothing on untracked or unrelated tensors - the part of the effect argument that concerns BackPropagate over graphs sharing untracked tensors")
+		{
+			pe := engine.NewOpEngine(c.P, c.A)
+			st := &engine.WalkStats{}
+			progs := engine.TemplatePrograms()
+			progs = append(progs, engine.EnumeratePrograms([]bool{true, false}, 1)...)
+			for _, pr := range progs {
+				pe.RunProgram(pr, st)
+			}
+			fileOps(c, pe, OpFilter{Keep: func(rule, construct string) bool { return rule == "interp" }, KeepF: untrackedUntouched})
+			c.R.Count("walk.programs", st.Programs)
+		}
 		e := engine.NewOpEngine(c.P, c.A)
 		e.RunRandomDrawChecks()
 		fileOps(c, e, OpFilter{Keep: func(rule, construct string) bool { return rule == "S8.rng" || rule == "interp" }})
